@@ -102,6 +102,8 @@ def generate(rng):
     else:
         scn['peer_closes'] = rng.random() < 0.5
     nops = rng.choice([1, 2, 3, 4, 5, 6, 8])
+    if os.environ.get('SIMPEX_TIER') == 'thorough' and rng.random() < 0.4:
+        nops = rng.randint(6, 16)
     ops = gen_ops(rng, tr, nops)
     scn['ops'] = ops
     if tr == 'pty' and scn['disp'] == 'mid_exit':
